@@ -213,7 +213,7 @@ def make_dataset(rng, *args, **kw):
 def make_dataset_once(rng, n_inputs=None, fmt=None, clim=False, prob=False, ens=False, pit=False, others=(),
                  miss=None, sparse=None, max_t=5, max_l=4, max_s=4, some_without_obs=False,
                  same_dims=False, integerish=False, vrange=(-10, 30), single=None, hours=None,
-                 leadtime_pool=None, thresholds=None, quantiles=None, members=None, loc_pool=None, n_locs=None):
+                 leadtime_pool=None, thresholds=None, quantiles=None, members=None, loc_pool=None, n_locs=None, minutes=None, times=None):
     """A family of inputs with mutually different coverage that share the same observations."""
     if n_inputs is None:
         n_inputs = rng.choice([1, 2, 2, 3, 4])
@@ -227,6 +227,11 @@ def make_dataset_once(rng, n_inputs=None, fmt=None, clim=False, prob=False, ens=
     if single == "leadtime":
         nl = 1
     alltimes = pick_times(rng, nt, hours=hours)
+    if times is not None:
+        alltimes = sorted(times)
+    if minutes:
+        # rapid-update cycles: initialisation times off the whole hour (text files then need the unixtime column)
+        alltimes = sorted(set(t + 60 * rng.choice(minutes) for t in alltimes))
     pool = leadtime_pool or [0, 1, 3, 6, 12, 18, 23, 24, 25, 30, 36, 47, 48, 49, 72, 96, 240, 1.5]
     allleads = sorted(rng.sample(pool, min(nl, len(pool))))
     if n_locs is not None:
